@@ -1204,6 +1204,27 @@ func main() {
 			}
 		}
 	}
+	// ---- lapped consumer (lapped.go): a consumer parked for a whole ring lap, a second one marks its slot unsafe,
+	//      an enqueuer holds that very ticket ----
+	nlap := 2 // per variant
+	if th {
+		nlap = 10
+	}
+	lapNotParked := 0
+	for variant := 0; variant < 3; variant++ {
+		for i := 0; i < nlap; i++ {
+			q := newQ(variant, 3000)
+			clock = 0
+			label := lappedLabel(q)
+			h, parked := lappedConsumer(q, rng.Range(1, 3), rng, &clock, func(what string, detail interface{}) { w.Violation(label, what, detail) })
+			if !parked {
+				lapNotParked++
+			}
+			light = append(light, pending{fmt.Sprintf("CHist true true %s\n %s", vhlib.Bool(twin(h, true, true)), histStr(h)), label, true, nil,
+				map[string]interface{}{"events": len(h), "all_parked": parked}})
+		}
+	}
+	w.Notes["lapped_consumer_runs_where_a_party_did_not_park"] = lapNotParked
 	w.Notes["idle_polling_unrecorded_empty_polls"] = totalPolls
 	w.Notes["idle_polling_threshold_before_the_rounds"] = budgets
 	w.Notes["near_empty_rounds_where_the_enqueuer_did_not_park"] = notParked
